@@ -70,6 +70,10 @@ def instances(tier):
         for L in (0, 1, nb):
             out.append({"kind": "error", "gen": g, "len": L})
             out.append({"kind": "version", "gen": g, "len": L})
+        # the length byte announces more text than the frame holds (a frame cut inside its text field)
+        for L, ann in ((0, 2), (2, 3), (2, 200)):
+            out.append({"kind": "error", "gen": g, "len": L, "announced": ann})
+            out.append({"kind": "version", "gen": g, "len": L, "announced": ann})
     return out
 
 
@@ -512,8 +516,13 @@ def _error(ctx, p):
     L = p["len"]
     ac = ctx.byte("ac")
     text = [ctx.byte(f"t{j}") for j in range(L)]
-    res, exc = _decode(g, 0x1F, framing.ext(0xFF10, [ac, L] + text), ctx)
+    ann = p.get("announced", L)
+    res, exc = _decode(g, 0x1F, framing.ext(0xFF10, [ac, ann] + text), ctx)
     lab = "error"
+    if ann > L:
+        ctx.check(res is None, lab, detail={"why": "text shorter than announced was decoded", "announced": ann, "present": L})
+        ctx.reach("consumed")
+        return
     if res is None:
         ctx.reach(lab)
         ctx.reach("consumed")
@@ -533,8 +542,13 @@ def _version(ctx, p):
     L = p["len"]
     upd = ctx.byte("upd")
     text = [ctx.byte(f"t{j}") for j in range(L)]
-    res, exc = _decode(g, 0x1F, framing.ext(0xFF30, [upd, L] + text), ctx)
+    ann = p.get("announced", L)
+    res, exc = _decode(g, 0x1F, framing.ext(0xFF30, [upd, ann] + text), ctx)
     lab = "version"
+    if ann > L:
+        ctx.check(res is None, lab, detail={"why": "text shorter than announced was decoded", "announced": ann, "present": L})
+        ctx.reach("consumed")
+        return
     if res is None:
         ctx.reach(lab)
         ctx.reach("consumed")
